@@ -56,6 +56,13 @@ fn gen_scenario(seed: u64) -> Scenario {
     s.nargs = if s.build_phase { 3 } else { 2 };
     s.platform_present = true;
     s.build.kind = BuildKind::Ok;
+    if let Some(l) = s.build.launch.as_mut() {
+        for p in &mut l.processes {
+            if p.workdir.as_deref() == Some(super::script::WORKDIR_NOT_UTF8) {
+                p.workdir = None;
+            }
+        }
+    }
     if s.build.launch.is_none() && r.bool() {
         s.build.launch = Some(c05::gen_launch(&mut r));
     }
